@@ -459,7 +459,7 @@ func (db *DB) WaitPosExact(ctx context.Context, target ltx.Pos) error {
 	for {
 		select {
 		case <-ctx.Done():
-			return context.Cause(ctx)
+			return contextCause(ctx)
 		case <-ticker.C:
 			pos := db.Pos()
 			if pos.TXID < target.TXID {
@@ -2930,6 +2930,11 @@ func (db *DB) Import(ctx context.Context, r io.Reader) error {
 	}
 	defer guard.Unlock()
 
+	// The wait for the lock can outlast this node's time as primary.
+	if !db.store.IsPrimary() {
+		return ErrReadOnlyReplica
+	}
+
 	// Convert the whole image to an LTX file first. If the image cannot be read
 	// or is not valid then nothing has been changed yet and the import fails
 	// without affecting the existing database.
@@ -3080,7 +3085,7 @@ func (db *DB) AcquireWriteLock(ctx context.Context, fn func() error) (_ *GuardSe
 
 		select {
 		case <-ctx.Done():
-			return nil, context.Cause(ctx)
+			return nil, contextCause(ctx)
 		case <-ticker.C:
 			d := (2 ^ time.Duration(i)) * interval
 			if d > maxInterval {
@@ -3603,7 +3608,7 @@ func (db *DB) WriteSnapshotTo(ctx context.Context, dst io.Writer) (header ltx.He
 	for pgno := uint32(1); pgno <= pageN; pgno++ {
 		select {
 		case <-ctx.Done():
-			return header, trailer, context.Cause(ctx)
+			return header, trailer, contextCause(ctx)
 		default:
 		}
 
